@@ -352,6 +352,13 @@ def check_c12(run):
         ApiFamily("sync_d3", starts, setter_ops=setters, sp_ops=sp_ops(names, values), depth=3 if q else 4, properties=("WriteThrough",)),
         ApiFamily("sync_closure", starts[:3], setter_ops=r.sample(setters, 6), sp_ops=sp_ops(names[:2], values[:2], with_iter=False), mode="closure", properties=("WriteThrough",)),
     ]
+    # SetSearchParams (argument: fresh value / detached copy / another URL's live list / its own list) and mutation of a detached copy,
+    # interleaved with list mutations and SetSearch on two URLs
+    XFER = [("fresh0", "", ""), ("fresh", names[0], values[0]), ("copy", "c", "d"), ("live", "", "")]
+    DET = [("append", "x", "y"), ("delete", "a", ""), ("set", "a", "9"), ("sort", "", "")]
+    fams.append(ApiFamily("xfer_d3", ["http://h/?b=2&a=1", "x:o?a=1&&c", "http://h/p", "http://h/p?"], setter_ops=[("search", ""), ("search", "z=1&y"), ("hash", "f")],
+                          sp_ops=[("append", "k", "v"), ("delete", "a", ""), ("sort", "", "")], xfer_ops=XFER, det_ops=DET, refs=["?r=1", "x"],
+                          depth=3 if q else 4, nh=2, clone=True, properties=("WriteThrough", "Independence")))
     run_api_families(run, fams, keys="href,query,search,pathname,hash")
     run_traces(run, salt=12, parse_only=10)
     return run.finish("model_checking", "all interleavings (bounded trees and closure) of SearchParams mutations, SetSearch and the other setters from "
@@ -375,7 +382,8 @@ def check_c13(run):
     starts = ["http://u:p@h:8/a/b?q=1#f", "x://h/a?b=2", "file:///C:/d?x", "m:o?a=1", "m:o  #f", "m:o  ?q#f", "http://h/p?#", "x://@h?"]   # incl. empty-but-present components
     fams = [
         ApiFamily("indep_d3", starts, setter_ops=setters, sp_ops=sp_ops(names, values, with_sort=False) + [("sort", "", ""), ("iterappend", "", "z"), ("iterfirst", "", "w")], refs=["x", "?n=1", "#g", "//o/p?r"],
-                  depth=3 if q else 4, nh=3, clone=True, properties=("Independence",)),
+                  depth=3 if q else 4, nh=3, clone=True, properties=("Independence",),
+                  xfer_ops=[("copy", "c", "d"), ("live", "", ""), ("fresh", "n", "1")], det_ops=[("append", "x", "y"), ("sort", "", "")]),
     ]
     run_api_families(run, fams, keys="all")
     run_traces(run, salt=13, parse_only=10)
